@@ -30,43 +30,61 @@ def str_lists(node: ast.AST) -> List[Tuple[str, ...]]:
     return out
 
 
-def to_np_array_table(chk) -> Dict[str, List[str]]:
-    f = chk.repo.func(PA, "ModelCoefficients.to_np_array")
-    out: Dict[str, List[str]] = {}
-    def walk(node):
-        if isinstance(node, ast.If):
-            t = node.test
-            if isinstance(t, ast.Compare) and unparse(t.left) == "self.model_type":
-                ty = unparse(t.comparators[0]).split("ModelType.")[-1]
-                rets = [s for s in node.body if isinstance(s, ast.Return)]
-                if rets and isinstance(rets[0].value, ast.Call) and rets[0].value.args and isinstance(rets[0].value.args[0], ast.List):
-                    out[ty] = [e.attr if isinstance(e, ast.Attribute) else unparse(e) for e in rets[0].value.args[0].elts]
-            for o in node.orelse:
-                walk(o)
-    for s in f.node.body:
-        walk(s)
+FIELDS = ("intercept", "hdd_bp", "hdd_beta", "hdd_k", "cdd_bp", "cdd_beta", "cdd_k")
+
+
+def _coefficients_object(chk, member):
+    from engine.absint import AbsObj, BoundRepoMethods, Term
+
+    class _MC(AbsObj, BoundRepoMethods):
+        pass
+    me = _MC({"ModelCoefficients"}, model_type=member, **{f: Term(f) for f in FIELDS})
+    return me
+
+
+def _model_types(chk):
+    from engine.absint import enum_class
+    ec = enum_class(chk.repo.cls(PA, "ModelType"))
+    if ec is None:
+        raise AnalysisError("ModelType is no longer an Enum of literal members")
+    return list(ec)
+
+
+def _interp_on_types(chk, qual: str):
+    """{ModelType member name: what ModelCoefficients.<qual> gives for a coefficients object of that type}, by interpretation."""
+    from engine.absint import ModuleEnv, Term
+    from engine.pyinterp import Function, Interp, InterpRaised, Stub, Unsupported
+    f = chk.repo.func(PA, "ModelCoefficients." + qual)
+
+    class _NP(Stub):
+        @staticmethod
+        def array(x, **k):
+            return list(x)
+    out = {}
+    for member in _model_types(chk):
+        it = Interp(step_limit=20_000)
+        me = _coefficients_object(chk, member)
+        me._bind_repo(chk, chk.repo.cls(PA, "ModelCoefficients"), it, {"np": _NP(), "numpy": _NP()})
+        try:
+            r = Function(f.node, ModuleEnv(chk.repo, f.module, it, {"np": _NP(), "numpy": _NP()}), it)(me)
+        except InterpRaised as e:
+            r = f"raises {e.exc_name}"
+        except Unsupported as e:
+            raise AnalysisError(f"{f.key}: uses an operation outside the interpreted subset: {e}")
+        if isinstance(r, (list, tuple)):
+            r = [x.key() if isinstance(x, Term) else repr(x) for x in r]
+        out[member.name] = r
     return out
+
+
+def to_np_array_table(chk) -> Dict[str, List[str]]:
+    """ModelType member -> the coefficient fields to_np_array lays out, in order (interpreted per member on symbolic fields)."""
+    return {k: v for k, v in _interp_on_types(chk, "to_np_array").items() if isinstance(v, list)}
 
 
 def model_key_table(chk) -> Dict[str, str]:
-    """ModelType member -> model_key string (ModelCoefficients.model_key)."""
-    f = chk.repo.func(PA, "ModelCoefficients.model_key")
-    out: Dict[str, str] = {}
-    def walk(node):
-        if isinstance(node, ast.If):
-            rets = [s for s in node.body if isinstance(s, ast.Return)]
-            key = const_str(rets[0].value) if rets else None
-            t = node.test
-            if isinstance(t, ast.Compare) and unparse(t.left) == "self.model_type" and key is not None:
-                c = t.comparators[0]
-                members = c.elts if isinstance(c, (ast.List, ast.Tuple)) else [c]
-                for m in members:
-                    out[unparse(m).split("ModelType.")[-1]] = key
-            for o in node.orelse:
-                walk(o)
-    for s in f.node.body:
-        walk(s)
-    return out
+    """ModelType member -> model_key string (ModelCoefficients.model_key, interpreted per member)."""
+    return {k: v for k, v in _interp_on_types(chk, "model_key").items() if isinstance(v, str) and not v.startswith("raises ")}
 
 
 def unpack_table(chk) -> Dict[str, List[str]]:
